@@ -452,18 +452,44 @@ def sec_history(ctx, rng, case):
                 except ValueError:
                     ctx.reject("batch_remove-missing")
                     ctx.check(bogus and list(c.moments) == before_moments, "all-or-nothing", "C05:failed-edit-changed-circuit", "batch_remove raised but the circuit changed", history=h.log[-8:])
-            elif kind == 11 and before:  # batch_replace with an op on the same qubits
-                mi, i = before[int(rng.integers(len(before)))]
-                old = [op for op in c.moments[mi].operations if op_id(op) == i][0]
-                newid = h.next_id
-                h.next_id += 1
-                h.info[newid] = h.info[i]
-                new = old.untagged.with_tags(("id", newid))
+            elif kind == 11 and before:  # batch_replace with ops on the same qubits (sometimes with a bad last entry)
+                sel = [before[int(x)] for x in rng.choice(len(before), size=min(len(before), int(rng.integers(1, 4))), replace=False)]
+                batch, newids = [], []
+                for mi, i in sel:
+                    old = [op for op in c.moments[mi].operations if op_id(op) == i][0]
+                    newid = h.next_id
+                    h.next_id += 1
+                    h.info[newid] = h.info[i]
+                    newids.append(newid)
+                    batch.append((mi, old, old.untagged.with_tags(("id", newid))))
+                bad = str(rng.choice(["missing-op", "moment-out-of-range"])) if rng.random() < 0.25 else None
+                if bad == "missing-op":
+                    o, _ = h.new_op()
+                    batch.append((sel[0][0], o, o))
+                elif bad:
+                    batch.append((L0 + int(rng.integers(0, 3)), batch[0][1], batch[0][2]))
                 what = "batch_replace"
-                h.log.append("batch_replace(%d@%d -> %d)" % (i, mi, newid))
-                c.batch_replace([(mi, old, new)])
-                check_edit(ctx, h, what, before, positions(c), [newid], [i], None, False, existing_fixed=True)
-                ctx.check(dict((x, m) for m, x in positions(c))[newid] == mi, "placement-documented", "C05:batch_replace-placement", "", history=h.log[-8:])
+                h.log.append("batch_replace(%s%s)" % (["%d@%d -> %d" % (i, mi, n_) for (mi, i), n_ in zip(sel, newids)], "+" + bad if bad else ""))
+                if rng.random() < 0.5:
+                    check_queries(ctx, h, c, "before-batch_replace")   # (fills the caches a failed edit must leave valid)
+                try:
+                    c.batch_replace(batch)
+                except (ValueError, IndexError) as e:
+                    ctx.reject("batch_replace-" + str(bad))
+                    ctx.check(bad is not None and type(e) is (ValueError if bad == "missing-op" else IndexError), "all-or-nothing",
+                              "C05:batch_replace-rejected-valid", "%s: %s" % (type(e).__name__, e), history=h.log[-8:])
+                    ctx.check(list(c.moments) == before_moments, "all-or-nothing", "C05:failed-edit-changed-circuit",
+                              "batch_replace raised but the circuit changed", history=h.log[-8:])
+                    if list(c.moments) == before_moments:
+                        for n_ in newids:
+                            del h.info[n_]
+                    what = "batch_replace-failed"
+                else:
+                    ctx.check(bad is None, "all-or-nothing", "C05:batch_replace-accepted-bad-entry", str(bad), history=h.log[-8:])
+                    check_edit(ctx, h, what, before, positions(c), newids, [i for _, i in sel], None, False, order_inserted=False, existing_fixed=True)
+                    at = dict((x, m) for m, x in positions(c))
+                    ctx.check(all(at.get(n_) == mi for (mi, _), n_ in zip(sel, newids)), "placement-documented",
+                              "C05:batch_replace-placement", "", history=h.log[-8:])
             elif kind == 12 and L0 > 0:  # clear_operations_touching
                 qs = [h.qubits[int(x)] for x in rng.choice(h.n, size=int(rng.integers(1, h.n + 1)), replace=False)]
                 mis = [int(x) for x in rng.choice(L0, size=int(rng.integers(1, L0 + 1)), replace=False)]
